@@ -24,6 +24,24 @@ def outbound_session(rng):
     return lines
 
 
+def fill_topic(i):
+    return bytes([122, 48 + i // 4096 % 64, 48 + i // 64 % 64, 48 + i % 64])
+
+
+def fill_session(rng):
+    """an LRU resolver filled to (about) its capacity with fresh topics in one request, then a few more publishes: the only way
+    to reach the top of the alias range (65535 aliases, where `len + 1` no longer fits sixteen bits)"""
+    cfg = rng.choice([65535, 65535, 65534, 4096, 300])
+    smax = rng.choice([65535, 65535, cfg, 65534])
+    room = min(cfg, smax)
+    n = rng.choice([room, room, room - 1, room + 1, room + 70, max(room - 300, 1)])
+    lines = [f"alias.out.new kind=lru max={cfg}", f"alias.out.reset max={smax}", f"alias.out.fill n={n}"]
+    for _ in range(rng.randint(2, 12)):
+        t = rng.choice([rng.choice(TOPICS), fill_topic(rng.randint(0, max(n - 1, 0))), fill_topic(rng.randint(0, 5)), fill_topic(max(n - 1, 0))])
+        lines.append(f"alias.out.resolve topic={hexs(t)}")
+    return lines
+
+
 def inbound_session(rng):
     mx = rng.choice([0, 1, 2, 5, 65535])
     lines = [f"alias.in.new max={mx}"]
@@ -46,6 +64,11 @@ def suite_alias(report, tier, seed, prop="C17"):
     for i in range(n):
         sessions.append(("out", outbound_session(rng)))
         sessions.append(("in", inbound_session(rng)))
+    # the top of the alias range first (fixed corpus), then random fills
+    sessions.append(("out", ["alias.out.new kind=lru max=65535", "alias.out.reset max=65535", "alias.out.fill n=65535",
+                             f"alias.out.resolve topic={hexs(b'new/1')}", f"alias.out.resolve topic={hexs(fill_topic(7))}", f"alias.out.resolve topic={hexs(b'new/2')}"]))
+    for i in range(5 if tier == "quick" else 60):
+        sessions.append(("out", fill_session(rng)))
     reqs = []
     for _, lines in sessions:
         reqs.append("session.reset")
@@ -70,10 +93,29 @@ def suite_alias(report, tier, seed, prop="C17"):
                 break
         # reference replay on the implementation's answers
         if kind == "out":
-            table, smax = {}, 0
+            table, smax, filled = {}, 0, False
             for idx, (l, a) in enumerate(zip(lines, outs)):
                 verb, kv = parse_kv(l)
                 if verb == "alias.out.new":
+                    continue
+                if verb == "alias.out.fill":
+                    # a digest: every alias handed out must lie in 1..maximum; which topic got which alias is not reported, so
+                    # the server's table is unknown from here on (only the range of later aliases is judged)
+                    f, _ = resp_fields(a)
+                    report.count("alias.out.fill")
+                    filled = True
+                    bad = None
+                    if f.get("res", "").startswith("panic"):
+                        bad = "resolver panicked"
+                    elif int(f.get("zero", "0")) > 0 or (int(f.get("n", "0")) > int(f.get("none", "0")) and (int(f.get("min", "1")) < 1 or int(f.get("max", "0")) > smax)):
+                        bad = f"aliases outside 1..{smax} handed out: {a}"
+                    elif smax > 0 and int(f.get("none", "0")) > 0 and lines[0].split("kind=")[1].split(" ")[0] == "lru" and int(lines[0].split("max=")[1]) > 0:
+                        bad = None   # an LRU resolver may decline to alias; not a violation of C17
+                    if bad:
+                        mon_ok = False
+                        report.add_finding(Finding(prop, "mon:alias-server-replay", {"clause": "alias-out-of-range", "resolver": "lru"},
+                                                   "outbound resolution the server cannot accept: " + bad, lines[:idx + 1] + ["# impl: " + a]))
+                        break
                     continue
                 if verb == "alias.out.reset":
                     table, smax = {}, int(kv_get(kv, "max"))
@@ -97,7 +139,7 @@ def suite_alias(report, tier, seed, prop="C17"):
                         bad = f"alias {al} outside 1..{smax}"
                     elif skip:
                         report.count("alias.out.skip")
-                        if table.get(al) != topic:
+                        if not filled and table.get(al) != topic:
                             bad = f"topic omitted but the server's binding for alias {al} is {table.get(al)}"
                     else:
                         table[al] = topic
